@@ -16,7 +16,7 @@ from sim.ref import interp as R
 ID = "C03"
 LEVEL = "exploration"
 TIERS = {
-    "quick": {"segments": 1600, "wall": 150, "min_budget": 60},
+    "quick": {"segments": 800, "wall": 150, "min_budget": 60},
     "thorough": {"segments": 60000, "wall": 1500, "min_budget": 300},
 }
 SEGMENT_TIMEOUT = 600
